@@ -182,6 +182,8 @@ def gcs(name, ts, final, qcap=2, **kw):
     kw.setdefault('opts', {'loop:keep_reclaim': '3'}); kw.setdefault('tiers', TH); kw.setdefault('timeout', 7200)
     S('gc_' + name, 'gc/gc.cpp', {'assert': 'C10'}, defs=['VF_QCAP=%d' % qcap] + ['VF_T%d=%s' % (i, t) for i, t in enumerate(ts)] + ['VF_FINAL=' + final], **kw)
 S('gc_seq_stop', 'gc/gc_seq.cpp', {'assert': 'C10'}, models=['sc'], bound=8)
+S('gc_seq_retire_during_intake_wrapped', 'gc/gc_seq2.cpp', {'assert': 'C10'}, models=['sc'], bound=8, defs=['VF_PREADVANCE=3'])
+S('gc_seq_retire_during_intake', 'gc/gc_seq2.cpp', {'assert': 'C10'}, models=['sc'], bound=8, defs=['VF_PREADVANCE=0'])
 # stop() issued while a region opened before the retirement is still open
 gcs('stop_with_open_region', ['REGION_OPEN();SIGNAL(0);REGION_CLOSE()', 'AWAIT(0);RETIRE(0);STOP_MARK();JOIN();vf_check(invoked[0]==1, 1)', 'COLLECTOR()'],
     'vf_check(invoked[0] <= 1, 2); if (invoked[0]) vf_check(open_at_invoke[0] == 0, 3)')
